@@ -570,7 +570,10 @@ class ViewsMachine(Machine):
         "scaled, first-read-after-mutation?, model, multi-segment?) cells; non-trivial = multi-segment result or a post-hoc mutation"
     )
     real_components = ["mxlpy.Simulation (all public views, lazy argument table, normalisation, producers/consumers)", "mxlpy.Simulator + Scipy to produce the segments", "mxlpy.Model evaluation"]
-    stub_components = []
+    stub_components = [
+        "the real Scipy integrator behind a content-keyed fault wrapper (only the continuations that say fail=True trip it)",
+        "a model function of the harness's own view models raises SimInterrupt(KeyboardInterrupt) at the k-th evaluation in the reads that say so",
+    ]
     assumptions = ["model evaluation on a fresh model is trusted (C01/C13 are not this property)", "coefficient signs are fixed across segments; rows per segment >= 2 so that per-segment and per-row factors cannot be confused"]
 
     def run_seed(self, seed: int, tier: str, known: list[list[str]]) -> RunResult:
